@@ -421,15 +421,15 @@ class FSA:
 
     """
         vertex = self.start_vertices[0]
-        subword = ""
+        accepted = 0
         for letter in word:
             try:
                 vertex = self.graph_dict[vertex][letter]
             except KeyError:
-                return subword
-            subword += letter
+                break
+            accepted += 1
 
-        return subword
+        return word[:accepted]
 
     def initial_rejected_subword(self, word):
         """Find an initial subword of a given word which is accepted by the
@@ -449,13 +449,13 @@ class FSA:
 
         """
         vertex = self.start_vertices[0]
-        subword = ""
+        accepted = 0
         for letter in word:
             try:
                 vertex = self.graph_dict[vertex][letter]
             except KeyError:
-                return subword + letter
-            subword += letter
+                return word[:accepted + 1]
+            accepted += 1
 
         return None
 
